@@ -17,6 +17,7 @@ from . import runner, symx
 PROPS = {
     "C01": "vp.harness.c01_bls",
     "C02": "vp.harness.c02_layout",
+    "C03": "vp.harness.c03_mirror",
     "C04": "vp.harness.c04_expr",
     "C06": "vp.harness.c06_serdes",
     "C07": "vp.harness.c07_deser",
